@@ -1446,6 +1446,63 @@ def directed_same_name():
     return out
 
 
+def directed_reopen():
+    """C03: flaws that are (re-)opened while the smart-type inconsistencies are solved. Gadget: a goal G whose rule is
+    `{ goal b = new sv.B(start: 0, end: 10); } or { goal q = new Q(); }` (equal costs), a fact sv.A(0, 10) on the same state-variable
+    instance (a reusable resource with a colliding Use in the resource variant), a fact q0 = Q() so that the flaw of q has two open
+    resolvers. All flaws get closed with the first disjunct; only then the overlap / overuse, which has no applicable choice because the
+    times are fixed numbers, forces the search back over the decided disjunct: the second disjunct opens q, whose flaw must be closed
+    before a solution is declared. origin and horizon are fixed so that no arithmetic atom is left pending. 1-3 gadgets per problem.
+    Every atom reachable from a chosen disjunct must be active or unified. All problems are satisfiable. Returns (program, text, expected)."""
+    out = []
+    R = lambda v: num(v, False)
+    fixed = [('expr', ('eq', var('origin'), R(0))), ('expr', ('eq', var('horizon'), R(100)))]
+
+    def gadget(j, kind, q_facts, q_rule, first):
+        """kind: 'sv' / 'rr'; q_facts: number of facts of Q; q_rule: Q has a rule with a subgoal; first: position of the colliding disjunct"""
+        g, qn, sn = 'G%d' % j, 'Q%d' % j, 'W%d' % j
+        classes, preds, main = [], [], []
+        if kind == 'sv':
+            cn = 'Mach%d' % j
+            classes.append({'name': cn, 'kind': 'class', 'supers': ['StateVariable'], 'fields': [], 'ctors': []})
+            preds += [{'name': cn + ':A', 'owner': cn, 'params': [], 'supers': [], 'body': []}, {'name': cn + ':B', 'owner': cn, 'params': [], 'supers': [], 'body': []}]
+            main += [('new', cn, 'sv%d' % j, []), ('formula', True, 'a%d' % j, ['sv%d' % j], cn + ':A', [('start', R(10 * j)), ('end', R(10 * j + 10))])]
+            collide = [('formula', False, 'b', ['sv%d' % j], cn + ':B', [('start', R(10 * j)), ('end', R(10 * j + 10))])]
+        else:
+            main += [('new', 'ReusableResource', 'rr%d' % j, [R(1)]),
+                     ('formula', True, 'u%d' % j, ['rr%d' % j], 'ReusableResource:Use', [('amount', R(1)), ('start', R(10 * j)), ('end', R(10 * j + 10))])]
+            collide = [('formula', False, 'b', ['rr%d' % j], 'ReusableResource:Use', [('amount', R(1)), ('start', R(10 * j)), ('end', R(10 * j + 10))])]
+        other = [('formula', False, 'q', [], qn, [])]
+        brs = [collide, other] if first else [other, collide]
+        preds.append({'name': g, 'owner': None, 'params': [], 'supers': [], 'body': [('disj', 'dj%d' % j, brs)]})
+        preds.append({'name': qn, 'owner': None, 'params': [], 'supers': [], 'body': [('formula', False, 's', [], sn, [])] if q_rule else []})
+        if q_rule:
+            preds.append({'name': sn, 'owner': None, 'params': [], 'supers': [], 'body': []})
+            main.append(('formula', True, 'w%d' % j, [], sn, []))
+        for k in range(q_facts):
+            main.append(('formula', True, 'q%d_%d' % (j, k), [], qn, []))
+        main.append(('formula', False, 'g%d' % j, [], g, []))
+        return classes, preds, main
+    specs = []
+    for kind in ('sv', 'rr'):
+        for q_facts in (1, 2):
+            for q_rule in (False, True):
+                for first in (True, False):
+                    specs.append([(kind, q_facts, q_rule, first)])
+    specs += [[('sv', 1, False, True), ('sv', 1, True, True)], [('sv', 1, False, True), ('rr', 1, False, True)],
+              [('rr', 2, True, True), ('sv', 1, False, True), ('sv', 2, False, True)], [('sv', 0, True, True)], [('rr', 0, True, True), ('sv', 1, True, True)]]
+    for spec in specs:
+        classes, preds, main = [], [], list(fixed)
+        for j, (kind, qf, qr, first) in enumerate(spec):
+            c, p_, m = gadget(j, kind, qf, qr, first)
+            classes += c
+            preds += p_
+            main += m
+        prog = {'classes': classes, 'preds': preds, 'main': main}
+        out.append((prog, A.pp_program(prog), 'sat'))
+    return out
+
+
 def directed_temporal():
     """Problems aimed at each conjunct of the temporal rules: on a correct planner they are unsolvable; if one of the
     constraints of Interval / Impulse is lost they become solvable with an ill-formed active atom (which the checker rejects)."""
